@@ -308,7 +308,135 @@ def task(t):
     return rep
 
 
+BREAKS = ('varinfo2', 'varinfo4', 'rootnames', 'modeB', 'truncated', 'unknown-child',
+          'nnodes', 'garbage-line')
+
+
+def _break(text, how):
+    lines = text.split('\n')
+    if how == 'varinfo2':
+        return '\n'.join('.varinfo 2' if l.startswith('.varinfo') else l for l in lines)
+    if how == 'varinfo4':
+        return '\n'.join('.varinfo 4' if l.startswith('.varinfo') else l for l in lines)
+    if how == 'rootnames':
+        i = next(k for k, l in enumerate(lines) if l.startswith('.rootids'))
+        n = len(lines[i].split()) - 1
+        return '\n'.join(lines[:i + 1] + ['.rootnames ' + ' '.join('r%d' % k for k in range(n))]
+                         + lines[i + 1:])
+    if how == 'modeB':
+        return '\n'.join('.mode B' if l.startswith('.mode') else l for l in lines)
+    if how == 'truncated':
+        i = next(k for k, l in enumerate(lines) if l == '.end')
+        return '\n'.join(lines[:i - 1]) + '\n'
+    if how == 'unknown-child':
+        i = next(k for k, l in enumerate(lines) if l == '.end')
+        parts = lines[i - 1].split()
+        parts[3] = '99'
+        return '\n'.join(lines[:i - 1] + [' '.join(parts)] + lines[i:])
+    if how == 'nnodes':
+        return '\n'.join('.nnodes 99' if l.startswith('.nnodes') else l for l in lines)
+    if how == 'garbage-line':
+        i = next(k for k, l in enumerate(lines) if l == '.nodes')
+        return '\n'.join(lines[:i + 2] + ['?? !!'] + lines[i + 2:])
+    raise KeyError(how)
+
+
+def task_seq(t):
+    """Histories of loads in one process: every ordered pair (A, B) where A is a valid file or
+    one the loader rejects (unsupported .varinfo 2/4, .rootnames, .mode B, truncated body,
+    unknown child, wrong .nnodes, junk line) and B is a valid file of every header mode;
+    B must load to the functions B describes whatever A was."""
+    _, si, ns, focus = t
+    rep = run.Report()
+    rec = sweep.Rec(rep)
+    env.scratch_dir()
+    names = names_for(3, env.SEED)
+    U = Universe(names)
+    X = [U.var(v) for v in names]
+    setups = [
+        (list(names), (X[0] & X[1] | X[2], U.full ^ (X[0] ^ X[2]))),
+        ([names[2], names[0], names[1]], ((X[1] ^ X[2]) & X[0] | (U.full ^ X[0]) & X[2],)),
+        ([names[1], 'e0', names[2], names[0]], (X[0] & (U.full ^ X[1]) | X[1] & X[2], X[2] ^ X[1])),
+    ]
+    files = []      # (label, text, judge-info or None)
+    for k, (L, rs) in enumerate(setups):
+        D = Diagram(U, L)
+        roots = [D.ref(f) for f in rs]
+        support = sorted({D.info[j][0] for j in range(len(D.info))})
+        ids = {v: 3 * i + 2 for i, v in enumerate(reversed(L))}
+        numbering = list(range(len(D.info)))
+        for mi, mode in enumerate(MODES):
+            nameless = not mode[2] and not mode[3]
+            if nameless and sorted(support) != sorted(L):
+                continue
+            path = 'c16s-%d.dddmp' % os.getpid()
+            raw_ids = write_file(path, D, roots, numbering, mode, support, ids)
+            text = open(path).read()
+            Dj = D
+            if not mode[3] and not nameless:
+                Dj = Diagram(U, [v for v in L if v in support])
+                Dj.info = D.info
+                Dj.L = [v for v in L if v in support]
+            files.append(('valid:%d:%s' % (k, mode[0]), text,
+                          (Dj, roots, raw_ids, nameless, L)))
+            if mi in (0, 8):
+                for how in BREAKS:
+                    files.append(('broken:%d:%s:%s' % (k, mode[0], how), _break(text, how), None))
+    valid = [f for f in files if f[2] is not None]
+    pairs = [(a, b) for a in files for b in valid]
+    mine = sweep.shard(pairs, ns)[si]
+    path = 'c16s-%d.dddmp' % os.getpid()
+    for (la, ta, ja), (lb, tb, jb) in mine:
+        if focus is not None and sweep.norm([la, lb]) != sweep.norm(focus):
+            continue
+        case = dict(task=t[:-1] + ([la, lb],), first=la, second=lb)
+        with open(path, 'w') as f:
+            f.write(ta)
+        try:
+            first = _dddmp.load(path)
+            first.roots.clear()
+            del first
+            if ja is None:
+                rep.add('broken_file_accepted')
+        except Exception:  # noqa
+            if ja is not None:
+                rec('seq-first-rejected', 'a valid file was rejected', dict(case))
+                continue
+            rep.add('rejections')
+        with open(path, 'w') as f:
+            f.write(tb)
+        try:
+            bdd = _dddmp.load(path)
+        except Exception as e:  # noqa
+            rec('seq-load-exception:' + type(e).__name__, 'a valid file is rejected after '
+                'another load in the same process: %r' % (e,), case)
+            continue
+        rep.add('evaluations')
+        rep.add('nontrivial')
+        Dj, roots, raw_ids, nameless, L = jb
+        res = judge(bdd, U, Dj, roots, raw_ids, nameless, L)
+        bdd.roots.clear()
+        if res is None:
+            rep.add('loaded_correctly')
+        elif res[0] == 'known':
+            rep.add('raw_root_ids_cases')
+            rec(res[1], 'dddmp.load stores the raw root ids of the file in bdd.roots '
+                'instead of the nodes they were rebuilt as', case)
+        else:
+            rec('seq:' + res[1], res[2] + ' (after another load in the same process)', case)
+    try:
+        os.remove(path)
+    except OSError:
+        pass
+    if si == 0 and focus is None:
+        rep.sample(dict(kind='load histories', files=len(files), valid=len(valid),
+                        pairs=len(pairs), breaks=list(BREAKS)))
+    return rep
+
+
 def dispatch(t):
+    if t[0] == 'seq':
+        return task_seq(t)
     return task(t)
 
 
@@ -322,7 +450,7 @@ TRICKY = ('add', 'mode', 'ids', 'dd', 'ver', 'nvars', 'permids', 'nroots', 'vari
 
 
 def plan(tier):
-    ts = []
+    ts = [('seq', si, 8, None) for si in range(8)]
     allm = tuple(range(len(MODES)))
     k = 0
     for a in range(0, len(TRICKY) - 2, 1 if tier == 'thorough' else 2):
@@ -379,7 +507,9 @@ def main(tier, t0):
               'x extra non-support variables interleaved (gaps in the permutation ids) x 10 '
               'header/varinfo modes (0, 1, 3; with/without .suppvarnames/.orderedvarnames; '
               'nameless) x EVERY node numbering (all linear extensions of the DAG, terminal at id '
-              '1); each (roots, levels, mode, numbering) is a distinct file; all non-trivial'),
+              '1); each (roots, levels, mode, numbering) is a distinct file; all non-trivial; '
+              'plus histories of two loads in one process: every ordered pair (valid or rejected '
+              'file, valid file)'),
         assumptions=['the generator builds the reduced diagram with complemented else edges itself '
                      '(mc/props/c16.py Diagram) and evaluates its own node list',
                      'line format as in tests/sample0.dddmp: id info index then else'],
